@@ -265,6 +265,14 @@ VERUS_UNITS = {
             ('r == out.2 && *final(world) == out.0 && *final(self) == RawCallbackSystem::<I, O, S>::Initialized(out.1) }),\n        RawCallbackSystem::Initialized(s)', 'r == out.2 && *final(world) == out.0 && *final(self) == RawCallbackSystem::<I, O, S>::Initialized(i.1) }),\n        RawCallbackSystem::Initialized(s)', 'RawCallbackSystem::run_with_cleanup'),
         ],
     },
+    'entity_local': {
+        'template': 'entity_local.rs.tpl',
+        'owners': [(r'EntityLocal::(check|entity|get|get_mut)$', ['C16']), (r'EntityWorldLocal::(inner|inner_mut)$', ['C16'])],
+        'negctl': [
+            ('ensures r.0 == self.tracker.value.reaction_source, *r.1 == self.data.items()[r.0].data,', 'ensures r.0 == self.tracker.value.reaction_source, *r.1 == self.data.items()[self.tracker.value.system.0].data,', 'EntityLocal::get'),
+            ('final(self).data.items() == old(self).data.items().insert(r.0, EntityWorldLocal { data: *final(r.1) }),', 'final(self).data.items() == old(self).data.items(),', 'EntityLocal::get_mut'),
+        ],
+    },
     'dispatch': {
         'template': 'dispatch.rs.tpl',
         'owners': [(r'schedule_entity_reaction_impl$', ['C01', 'C14']), (r'ReactCache::schedule_(insertion|mutation)_reaction$', ['C01', 'C14'])],
@@ -362,7 +370,7 @@ PROPS = {
         note=ENVNOTE + '; threads not verified; termination of the collection loop not verified; channel receiver modelled with &mut access (unit gc)',
         explanation='exact reference count up to the despawn request (Kani, real Arc, <=3 clones; lemma L4); one collection drains all requests and removes every requested entity (Verus, unbounded); concurrency assumed'),
     'C16': dict(category='other', design_ref='DESIGN.md 5/C16 + 9.5',
-        text='Function-level contracts: EntityLocal::{entity,get,get_mut} expose exactly the entity that caused the run and the local data attached to it, writes land on that data, and every accessor panics outside a run of the reactor\'s own system (Kani, loop-free, value symbolic); the run\'s source comes from EntityReactionAccessTracker whose start claims the oldest entry parked for that system (Verus, verbatim, any length; Kani K.tracker.entity restates it for lists L<=3/5; lemma L1); cleanup_reactor_data(id, e) removes the local data iff e\'s registration list holds no entry of reactor id any more and leaves entities without list alone, for lists of ANY length (Verus, verbatim, `find` closure lifted by extraction rule 23; restated by Kani on the compiled code for lists L<=2, all contents); EntityReactors::{insert,remove,iter_reactors} (Kani); ReactorType::get_entity and ReactorMode::prepare (a world reactor is Persistent => never ref-counted => never collected) (Verus, verbatim). Verus (verbatim, generic in the reactor type): Reactor::{add,add_starting_triggers,remove,run} and EntityReactor::{add,remove,system} queue exactly a PERSISTENT registration / a revocation for THE system command held by the reactor\'s resource (no system is spawned, despawned or duplicated), EntityReactor::add attaches the local data first and does nothing for a missing entity, EntityReactor::remove queues one local-data cleanup per unique entity of the removed bundle. EntityCommands::add_world_reactor (extensions.rs) queues ONE call of a system that does exactly EntityReactor::add(this entity, data) - nothing conditional, nothing else (Verus; the trait-impl method emitted as a free function, its system closure lifted: extraction rules 27/28). Not covered: RevokeToken::iter_unique_entities itself (assumed), the App-level wrappers (add_world_reactor on App, add_entity_reactor), and "as last modified by earlier runs" across trees (runner).',
+        text='Function-level contracts: EntityLocal::{entity,get,get_mut} expose exactly the entity that caused the run and the local data attached to THAT entity, a write through get_mut lands on that entity\'s data and on no other, and the accessors are panic-free exactly inside a run of the reactor\'s own system (Verus, verbatim, generic in the reactor type); that every accessor DOES panic outside such a run, and the same exposure on the compiled code, is the Kani half (loop-free, value symbolic); the run\'s source comes from EntityReactionAccessTracker whose start claims the oldest entry parked for that system (Verus, verbatim, any length; Kani K.tracker.entity restates it for lists L<=3/5; lemma L1); cleanup_reactor_data(id, e) removes the local data iff e\'s registration list holds no entry of reactor id any more and leaves entities without list alone, for lists of ANY length (Verus, verbatim, `find` closure lifted by extraction rule 23; restated by Kani on the compiled code for lists L<=2, all contents); EntityReactors::{insert,remove,iter_reactors} (Kani); ReactorType::get_entity and ReactorMode::prepare (a world reactor is Persistent => never ref-counted => never collected) (Verus, verbatim). Verus (verbatim, generic in the reactor type): Reactor::{add,add_starting_triggers,remove,run} and EntityReactor::{add,remove,system} queue exactly a PERSISTENT registration / a revocation for THE system command held by the reactor\'s resource (no system is spawned, despawned or duplicated), EntityReactor::add attaches the local data first and does nothing for a missing entity, EntityReactor::remove queues one local-data cleanup per unique entity of the removed bundle. EntityCommands::add_world_reactor (extensions.rs) queues ONE call of a system that does exactly EntityReactor::add(this entity, data) - nothing conditional, nothing else (Verus; the trait-impl method emitted as a free function, its system closure lifted: extraction rules 27/28). Not covered: RevokeToken::iter_unique_entities itself (assumed), the App-level wrappers (add_world_reactor on App, add_entity_reactor), and "as last modified by earlier runs" across trees (runner).',
         note=ENVNOTE + '; Query::verif_single stands for a query over one entity',
         explanation='add/remove command contracts proved (Verus, generic); EntityLocal exposure and cleanup_reactor_data bounded/complete@shape (Kani); runner not covered'),
     'C12': dict(category='other', design_ref='DESIGN.md 5/C12',
